@@ -104,7 +104,10 @@ def r1_completion_absorbing(cx):
             ra = root_place(hi, op_place(s["rv"]["a"])) if op_place(s["rv"]["a"]) else None
             rb = root_place(hi, op_place(s["rv"]["b"])) if op_place(s["rv"]["b"]) else None
             roots = [r for r in (ra, rb) if r is not None]
-            if any(place_is_field(r, "InitState", "next_stage") for r in roots) and any(not place_is_field(r, "InitState", "next_stage") and hi.local_name(r["l"]) == "stage" for r in roots):
+            def _is_msg_stage(r):
+                d0 = defuse(hi).single_def(r["l"])
+                return d0 is not None and d0[0] == "call" and callee_is(d0[2], "InitMsg::stage")
+            if any(place_is_field(r, "InitState", "next_stage") for r in roots) and any(not place_is_field(r, "InitState", "next_stage") and _is_msg_stage(r) for r in roots):
                 l = s["place"]["l"]
                 for sb in hi.cfg.reach:
                     tt = hi.blocks[sb]["term"]
@@ -146,7 +149,7 @@ def r2_complementary_roles(cx):
         ok = False
         if o[0] == "rvalue" and o[2]["rv"]["k"] == "unop" and o[2]["rv"]["op"] == "Not":
             r = root_place(him, op_place(o[2]["rv"]["a"]))
-            ok = any(e.get("n") == "is_initiator" for e in r.get("p", []) if e["k"] == "field") or him.local_name(r["l"]) == "is_initiator"
+            ok = any(e.get("n") == "is_initiator" for e in r.get("p", []) if e["k"] == "field")
         cx.check("rotation-starts-at-responder", ok, site_of(him, ci), "the rotation initiator flag is the negation of the handshake initiator flag (exactly one end starts rotation)")
 
 
